@@ -40,6 +40,7 @@ type scriptConn struct {
 	// write gating (C08): when gate != nil every Write announces itself and waits to be released
 	gate chan *gatedWrite
 	feed chan []byte // when set: Read blocks until bytes are fed
+	wdl  time.Time   // write deadline (zero = none)
 }
 
 type gatedWrite struct {
@@ -87,6 +88,12 @@ func (c *scriptConn) Read(p []byte) (int, error) {
 }
 
 func (c *scriptConn) Write(p []byte) (int, error) {
+	c.mu.Lock()
+	expired := !c.wdl.IsZero() && c.wdl.Before(time.Now())
+	c.mu.Unlock()
+	if expired {
+		return 0, timeoutErr{} // the write deadline has passed: nothing is sent
+	}
 	cp := append([]byte(nil), p...)
 	if c.gate != nil {
 		g := &gatedWrite{data: cp, release: make(chan struct{})}
@@ -101,9 +108,19 @@ func (c *scriptConn) Write(p []byte) (int, error) {
 func (c *scriptConn) Close() error                       { c.closed = true; return nil }
 func (c *scriptConn) LocalAddr() net.Addr                { return scriptAddr("local") }
 func (c *scriptConn) RemoteAddr() net.Addr               { return scriptAddr(c.addr) }
-func (c *scriptConn) SetDeadline(t time.Time) error      { return nil }
-func (c *scriptConn) SetReadDeadline(t time.Time) error  { return nil }
-func (c *scriptConn) SetWriteDeadline(t time.Time) error { return nil }
+func (c *scriptConn) SetDeadline(t time.Time) error {
+	c.mu.Lock()
+	c.wdl = t
+	c.mu.Unlock()
+	return nil
+}
+func (c *scriptConn) SetReadDeadline(t time.Time) error { return nil }
+func (c *scriptConn) SetWriteDeadline(t time.Time) error {
+	c.mu.Lock()
+	c.wdl = t
+	c.mu.Unlock()
+	return nil
+}
 
 var connSeq int
 
